@@ -22,6 +22,13 @@ def std_case(rnd, seed, *, kinds=("gauss", "bimodal", "expedge", "corr"), scenar
         cfg["reflective"] = [0]
     case = dict(seed=seed, target=tgt, cfg=cfg, n_total=rnd.choice(list(n_totals)), scenario=rnd.choice(list(scenarios)))
     case.update(gen.gen_eval(rnd, blobs=bool(nb), modes=evals))
+    if rnd.random() < 0.03 and not nb and "vector" in evals:
+        # batches larger than any internal block size a vectorised path might use (not a multiple of a power of two)
+        case["cfg"]["n_particles"] = rnd.choice([300, 389, 500])
+        case["cfg"]["clustering"] = False
+        case["eval"] = "vector"
+        case.pop("pool", None)
+        case["n_total"] = 512
     if rnd.random() < 0.2:
         case["progress"] = True  # the progress-bar code paths (update_stats in every stage and MCMC step) take part
     if case["scenario"] == "crash_resume":
